@@ -13,8 +13,9 @@ from . import env
 
 
 class _Worker:
-    def __init__(self, wenv: dict):
+    def __init__(self, wenv: dict, oneshot: bool = False):
         self.wenv = wenv
+        self.oneshot = oneshot
         self.proc = None
         self.spawn()
 
@@ -68,8 +69,8 @@ class _Worker:
                     reply = json.loads(line)
                 except ValueError:
                     continue
-                if reply.get("status") == "cpu_budget":
-                    self.spawn()
+                if reply.get("status") == "cpu_budget" or self.oneshot:
+                    self.spawn()  # oneshot: every task sees a fresh interpreter (no history, cold caches)
                 return reply
             remaining = deadline - time.monotonic()
             if remaining <= 0:
@@ -91,7 +92,8 @@ class Pool:
     reply["status"] in {"ok", "exc", "cpu_budget", "crash", "watchdog"}; "ok" carries "value".
     """
 
-    def __init__(self, n: int | None = None, hashseed=0, extra_env: dict | None = None):
+    def __init__(self, n: int | None = None, hashseed=0, extra_env: dict | None = None, oneshot: bool = False):
+        self.oneshot = oneshot
         self.n = n or min(16, os.cpu_count() or 4)
         self.wenv = env.worker_env(hashseed, extra_env)
         self.workers: list[_Worker] = []
@@ -113,7 +115,7 @@ class Pool:
             wall_s = cpu_s * 6 + 120
         n = min(self.n, max(1, len(args)))
         while len(self.workers) < n:
-            self.workers.append(_Worker(self.wenv))
+            self.workers.append(_Worker(self.wenv, self.oneshot))
         results = [None] * len(args)
         q: queue.Queue = queue.Queue()
         for i, a in enumerate(args):
